@@ -621,6 +621,10 @@ func tryToParseColorStops(gradient parsedGradient) ([]parsedColorStop, bool) {
 		// Midpoints are only supported if they use the same units as their neighbors
 		for i, stop := range colorStops {
 			if stop.midpoint != nil {
+				// A midpoint after the last color stop (e.g. "red, 50%,") is invalid
+				if i+1 >= len(colorStops) {
+					return nil, false
+				}
 				next := colorStops[i+1]
 				if len(stop.positionTerms) != 1 || stop.midpoint.unit != stop.positionTerms[0].unit ||
 					len(next.positionTerms) != 1 || stop.midpoint.unit != next.positionTerms[0].unit {
